@@ -382,13 +382,14 @@ def judge(prog, lst_text, file_img, pr, ext=None, iso=None):
             return "overwrite"
         if a in toprun:
             return "top-of-memory"
+        if not unaligned:
+            for (s, r, m) in mismatch:
+                if s <= a < r:
+                    return "walk-mismatch:" + m
         if code and any(x <= a < y for x, y in inc_ranges):
             return "include-code"
         if unaligned and code:
             return "unaligned-code"
-        for (s, r, m) in mismatch:
-            if s <= a < r:
-                return "walk-mismatch:" + m
         for x, y, name in rep_ranges:
             if x <= a < y:
                 return name
